@@ -122,7 +122,15 @@ static void pred_pls(const Case &c) {
       VF_CHECK(nw > 0, "first weight vector is null although X'Y is not (a defined latent variable came back null)");   // stored weights are rescaled by |p|: not unit length
       M CCt = mul(C, transpose(C)); V ev; M evec; jacobi_eig(CCt, ev, evec);
       ld q = 0; for (int a = 0; a < p; a++) for (int b2 = 0; b2 < p; b2++) q += (ld)m->xweights->data[a][0] * CCt(a, b2) * m->xweights->data[b2][0];
-      VF_CHECK(q / nw >= ev[0] * (1 - 1e-5L), "first weight vector: w'(X'Y Y'X)w / w'w = %.6Lg but the largest eigenvalue is %.6Lg", q / nw, ev[0]);
+      if (!(q / nw >= ev[0] * (1 - 1e-5L))) {
+        // KNOWN FINDING pls-nipals-start-in-invariant-subspace: the iteration starts from the response of largest variance; when
+        // X'u of that response is an exact eigenvector of X'Y Y'X other than the dominant one (orthogonal designs: a response that
+        // depends on one factor plus an interaction the model does not contain) it stays there.  Signature: w IS an eigenvector.
+        ld rn = 0; for (int a = 0; a < p; a++) { ld r = -(q / nw) * m->xweights->data[a][0]; for (int b2 = 0; b2 < p; b2++) r += CCt(a, b2) * m->xweights->data[b2][0]; rn += r * r; }
+        std::string msg = fmt("first weight vector: w'(X'Y Y'X)w / w'w = %.6Lg but the largest eigenvalue is %.6Lg", q / nw, ev[0]);
+        if (sqrtl(rn) <= 1e-8L * ev[0] * sqrtl(nw)) fail_known("pls-nipals-start-in-invariant-subspace", msg + " (w is an exact eigenvector, not the dominant one)");
+        fail(msg);
+      }
       ld tt = 0; for (int i = 0; i < n; i++) tt += (ld)m->xscores->data[i][0] * m->xscores->data[i][0];
       VF_CHECK(tt > 0, "first x-score vector is null although X'Y is not");
     }
